@@ -43,6 +43,15 @@ from . import _n_word_max, _max_error
 
 _NUMPY_HANDLED_FUNCTIONS = {}
 
+def _shift_raw(val, shift, n_word):
+    """
+    Returns raw value(s) `val` (of a word of `n_word` bits) multiplied by 2**shift.
+    Python integers are used when the shifted value could overflow 64 bits integers.
+    """
+    if shift > 0 and n_word is not None and n_word + shift >= 64 and isinstance(val, (np.ndarray, np.generic)) and val.dtype != object:
+        val = np.array(val).astype(object)
+    return val * 2**shift
+
 try:
     from decimal import Decimal
     from decimal import getcontext
@@ -418,6 +427,7 @@ class Fxp():
         """
         _old_val = self.val
         _old_n_frac = self.n_frac
+        _old_n_word = self.n_word
 
         # check signed type
         if not isinstance(signed, (type(None), bool, int)):
@@ -498,7 +508,7 @@ class Fxp():
             if self.scaled:
                 self.set_val((_old_val / 2**_old_n_frac) * self.scale + self.bias)
             else:
-                self.set_val(_old_val * 2**(self.n_frac - _old_n_frac), raw=True)
+                self.set_val(_shift_raw(_old_val, self.n_frac - _old_n_frac, _old_n_word), raw=True)
         else:
             self.set_val(_old_val, raw=True)
 
@@ -683,7 +693,7 @@ class Fxp():
                 vdtype = float
 
             # force return raw value for better precision
-            val = val.val * 2**(self.n_frac - val.n_frac)
+            val = _shift_raw(val.val, self.n_frac - val.n_frac, val.n_word)
             raw = True
 
         elif isinstance(val, (int, float, complex)):
@@ -1100,7 +1110,7 @@ class Fxp():
         if isinstance(x, Fxp):
             raw_val = x.val
 
-            new_val_raw = raw_val * 2**(self.n_frac - x.n_frac)
+            new_val_raw = _shift_raw(raw_val, self.n_frac - x.n_frac, x.n_word)
             self.set_val(new_val_raw, raw=True, index=index)
         else:
             self.set_val(x, index=index)
@@ -1661,7 +1671,7 @@ class Fxp():
 
     def like(self, x):
         if isinstance(x, self.__class__):
-            new_raw_val = self.val * 2**(x.n_frac - self.n_frac)
+            new_raw_val = _shift_raw(self.val, x.n_frac - self.n_frac, self.n_word)
             return  x.deepcopy().set_val(new_raw_val, raw=True)
         else:
             raise ValueError('`x` should be a Fxp object!')
